@@ -5,7 +5,10 @@ STATUS: PARTIAL.  What is proved here, for traces of any length with any number 
   (1) soundness of the synchronisation disciplines in the event model of `Model/Conc`
       (`C14_lockset_sound`, `C14_atomic_only_sound`, `C14_init_before_publish_sound`,
       `C14_atomic_after_init_sound`, `C14_init_then_guarded_sound`, `C14_fork_publishes`);
-  (2) that the access sites of the watched shared fields, as REGENERATED from the Go source on every run
+  (1b) that the exclusive hold demanded for writes is necessary: under a shared (read-mode) hold two writers
+      race (`C14_shared_hold_write_races_witness`) — the shape of a lazy initialisation in a read-locked getter;
+  (2) that the access sites of the watched shared fields (EVERY non-lock field of session, callCmd, socket,
+      SessionHub, peer and the protocol objects, plus plugin containers/counters), as REGENERATED from the Go source on every run
       (`Teleport.Gen.guards`), satisfy the discipline declared for their field in `Conc.guardOf`, except the
       sites listed in `Conc.knownRacy` (`C14_discipline_partial`), that those exceptions really violate it
       (`C14_known_racy_sites_violate`), and that the extraction was complete (`C14_extraction_complete`).
@@ -130,6 +133,30 @@ example : Published exPub 5 1 1 where
 
 example : NoAtomic exPub 5 := by unfold NoAtomic; decide
 
+/-- two threads both hold lock 0 in SHARED mode and both write location 7 (the shape of a lazy initialisation
+performed in a read-locked getter). -/
+def exSharedWrite : Trace :=
+  [⟨1, .racq 0⟩, ⟨2, .racq 0⟩, ⟨1, .wr 7⟩, ⟨2, .wr 7⟩, ⟨1, .rrel 0⟩, ⟨2, .rrel 0⟩]
+
+/-- Why the table check demands the EXCLUSIVE hold for writes (`siteOk`, `.rw`): a shared hold does not order
+writers.  The trace is lock-well-formed, each write is made while its thread holds the lock in read mode, and
+the two writes race. -/
+theorem C14_shared_hold_write_races_witness :
+    LockWf 0 exSharedWrite ∧ holdsRb 0 exSharedWrite 2 1 = true ∧ holdsRb 0 exSharedWrite 3 2 = true ∧
+    Race exSharedWrite 7 := by
+  refine ⟨by decide, by decide, by decide, 2, 3, ⟨by decide, ⟨1, .wr 7⟩, ⟨2, .wr 7⟩, by decide⟩, ?_⟩
+  intro h
+  have hedge : Edge exSharedWrite 2 3 := by
+    cases h with
+    | edge e => exact e
+    | trans h1 h2 => have := h1.lt; have := h2.lt; omega
+  obtain ⟨_, a, b, ha, hb, hab⟩ := hedge
+  have ha' : a = ⟨1, .wr 7⟩ := by simp [exSharedWrite] at ha; exact ha.symm
+  have hb' : b = ⟨2, .wr 7⟩ := by simp [exSharedWrite] at hb; exact hb.symm
+  subst ha' hb'
+  revert hab
+  decide
+
 /-! ## (2) the regenerated site table satisfies the declared guard map -/
 
 /-- the regenerated access sites. -/
@@ -142,13 +169,27 @@ def isKnownRacy (s : Site) : Bool := knownRacy.any (·.matches s)
 discipline, and satisfies it — except the sites listed in `knownRacy`, which are reported as violations of the
 property by the harness.  Checked by evaluation over the regenerated table: a change of the code that drops a
 lock around an access, accesses an atomic field plainly, writes an init-only field after construction, or
-writes a callCmd field after `done()` makes this theorem fail to build.  PARTIAL: "satisfies" refers to the
-syntactic lock regions of the enclosing function. -/
+writes a callCmd field after `done()`, writes a field while holding its rw-guard only in shared mode
+(`RLock`), or adds a field to one of the watched structs (session, callCmd, socket, SessionHub, peer, the
+protocol objects: ALL their non-lock fields are watched) without declaring its discipline makes this theorem
+fail to build.  PARTIAL: "satisfies" refers to the syntactic lock regions of the enclosing function. -/
 theorem C14_discipline_partial :
     sites.all (fun s => match guardOf s.field with
       | none => false
       | some d => siteOk d s || isKnownRacy s) = true := by
   decide +kernel
+
+/-- The table check distinguishes the lock MODE: a write of an rw-guarded field made while the guard is held
+only shared (`RLock`) — e.g. a lazy initialisation moved into the read-locked getter path — or with no lock
+violates the discipline, as does a read without the lock; the same sites under the exclusive hold are fine.
+(Non-vacuity of `siteOk` for the `.rw` and `.mutex` disciplines on the shapes the extractor emits.) -/
+example : siteOk (.rw "socket.swapMutex" [] []) ⟨"socket.swap", "W", false, [("socket.swapMutex", "R")], "socket.Swap", "socket/socket.go"⟩ = false := by decide
+example : siteOk (.rw "socket.swapMutex" [] []) ⟨"socket.swap", "W", false, [], "socket.Swap", "socket/socket.go"⟩ = false := by decide
+example : siteOk (.rw "socket.swapMutex" [] []) ⟨"socket.swap", "R", false, [("socket.mu", "W")], "socket.SwapLen", "socket/socket.go"⟩ = false := by decide
+example : siteOk (.rw "socket.swapMutex" [] []) ⟨"socket.swap", "W", false, [("socket.swapMutex", "W")], "socket.Swap", "socket/socket.go"⟩ = true := by decide
+example : siteOk (.rw "socket.swapMutex" [] []) ⟨"socket.swap", "R", false, [("socket.swapMutex", "R")], "socket.SwapLen", "socket/socket.go"⟩ = true := by decide
+example : siteOk (.mutex "peer.mu" ["NewPeer"] []) ⟨"peer.listeners", "R", false, [("peer.mu", "R")], "peer.Close", "peer.go"⟩ = false := by decide
+example : siteOk (.initOnly ["NewPeer"]) ⟨"peer.network", "W", false, [("peer.mu", "W")], "peer.Dial", "peer.go"⟩ = false := by decide
 
 /-- The exceptions are real: every `knownRacy` entry that still has a site in the current table violates the
 declared discipline there (so the list cannot silently hide sites that are fine, and an entry whose race was
@@ -165,7 +206,7 @@ theorem C14_violated_sites_witness : (sites.filter isKnownRacy).length ≥ 1 := 
 /-- Extraction was complete: no watched struct/field/call shape was missing, and no selector with a watched
 field name had a base whose type the extractor could not infer (fails closed otherwise). -/
 theorem C14_extraction_complete :
-    Teleport.Gen.guards_missing = [] ∧ Teleport.Gen.guardUnresolved = [] ∧ sites.length ≥ 150 := by
+    Teleport.Gen.guards_missing = [] ∧ Teleport.Gen.guardUnresolved = [] ∧ sites.length ≥ 350 := by
   decide +kernel
 
 /-- Every field the task watches is present in the table with at least one site, and the fields exempted
@@ -179,7 +220,9 @@ theorem C14_watched_fields_present :
       "SessionHub.sessions", "peer.listeners", "peer.closeCh", "peer.tlsConfig",
       "tBinaryProto.writeCount", "tBinaryProto.readCount", "tBinaryProto.tProtocol",
       "tStructProto.writeCount", "tStructProto.readCount", "tStructProto.tProtocol",
-      "pluginSingleContainer.plugins"].all (fun f => sites.any (·.field == f))) = true ∧
+      "pluginSingleContainer.plugins", "socket.fromPool"].all (fun f => sites.any (·.field == f))) = true ∧
+    -- every field declared init-only is present too (the extractor watches ALL fields of the watched structs)
+    (initOnlyFields.all (fun fc => sites.any (·.field == fc.1))) = true ∧
     ((sites.map (·.field)).eraseDups.filter (fun f => isExempt (guardOf f))) =
       ["PluginContainer.left", "PluginContainer.middle", "PluginContainer.refreshTree", "PluginContainer.right",
        "ReadCounter.count", "WriteCounter.count", "peer.tlsConfig", "pluginSingleContainer.plugins",
